@@ -426,6 +426,7 @@ public:
         Index i, nconv = 0, nev_adj;
         for (i = 0; i < maxit; i++)
         {
+            SPECTRA_VERIF_YIELD(2);
             nconv = num_converged(tol);
             if (nconv >= m_nev)
                 break;
